@@ -133,6 +133,26 @@ pub fn cases(tier: &str) -> Vec<Case> {
     out
 }
 
+/// Another problem for the same kind of space: other resolution, other weights / bounds, other seed.
+fn decoy_of(case: &Case) -> Case {
+    use crate::kit::Spec;
+    fn alter(s: &Spec) -> Spec {
+        match s {
+            Spec::Rv { dim, bounds, .. } => Spec::Rv { dim: *dim, bounds: bounds.as_ref().map(|b| b.iter().map(|(l, u)| (*l - 3.0, *u + 5.0)).collect()), frac: Some(0.9) },
+            Spec::So2 { .. } => Spec::So2 { bounds: None, frac: Some(0.9) },
+            Spec::So3 { .. } => Spec::So3 { bounds: None, frac: Some(0.9) },
+            Spec::Cmp { parts, weights } => Spec::Cmp { parts: parts.iter().map(alter).collect(), weights: weights.iter().map(|w| w * 7.0 + 1.0).collect() },
+            Spec::Se2 { weight, bounds } => Spec::Se2 { weight: weight * 7.0 + 1.0, bounds: bounds.as_ref().map(|b| b.iter().enumerate().map(|(i, (l, u))| if i < 2 { (*l - 3.0, *u + 5.0) } else { (*l, *u) }).collect()) },
+            Spec::Se3 { weight, bounds } => Spec::Se3 { weight: weight * 7.0 + 1.0, bounds: bounds.as_ref().map(|b| b.iter().map(|(l, u)| (*l - 3.0, *u + 5.0)).collect()) },
+        }
+    }
+    let mut d = case.clone();
+    d.sc.spec = alter(&case.sc.spec);
+    d.sc.params.seed = Some(case.sc.params.seed.unwrap_or(0) ^ 0x5eed);
+    d.fault = None;
+    d
+}
+
 /// Executes the history; returns one digest per call (result + snapshot + sampled states so far).
 fn execute<K: Kit>(case: &Case) -> Vec<u128> {
     let sc = &case.sc;
@@ -202,6 +222,14 @@ fn run_case(case: &Case, idx: usize, tier: &str, rep: &mut Report) {
     let (a, ea) = exec(0xA11CE);
     let (a2, _) = exec(0xA11CE);
     let (b, eb) = exec(0xB0B);
+    // the same history on a thread that has ALREADY planned something else (another problem in a space
+    // of another resolution / weighting, then dropped): per-thread or per-process caches, address-keyed
+    // memo tables and the like must not carry anything over
+    let (w, _) = with_entropy(0xA11CE, || {
+        let decoy = decoy_of(case);
+        let _ = with_kit!(kit, execute(&decoy));
+        with_kit!(kit, execute(case))
+    });
     rep.count("evaluations", 3);
     rep.count("histories", 1);
     if case.fault.is_some() {
@@ -223,6 +251,15 @@ fn run_case(case: &Case, idx: usize, tier: &str, rep: &mut Report) {
         return;
     }
     rep.count("traces_validated", 1);
+    if w != a && !w.contains(&0xdead) {
+        let at = a.iter().zip(&w).position(|(x, y)| x != y).unwrap_or(0);
+        let pk = case.sc.params.pk;
+        rep.violate(format!("C07|{}|depends-on-what-the-thread-did-before|{}", pk.name(), op_name(&case.hist[at.min(case.hist.len() - 1)])), format!("the same seeded history gives different observations (first at call #{at}) on a thread that planned another problem before: something outlives the planner and the problem"), || {
+            json!({"kind": "repro", "prop": "C07", "tier": tier, "case_index": idx, "scenario": case.sc.json(), "history": format!("{:?}", case.hist), "first_divergent_call": at, "after_decoy": true})
+        });
+        return;
+    }
+    rep.count("histories_repeated_after_a_decoy", 1);
     if a != b {
         let at = a.iter().zip(&b).position(|(x, y)| x != y).unwrap_or(0);
         let op = &case.hist[at];
@@ -273,10 +310,21 @@ fn clock_case<K: Kit>(sc: &Scenario, goal_rng: bool, budget: usize, rep: &mut Re
                 let c = rig.drv.construct_roadmap();
                 c.map(|_| vec![])
             } else {
-                rig.drv.solve(iters(budget))
+                let first = rig.drv.solve(iters(budget));
+                // a second call on the same object: whatever the first call left behind when its time
+                // ran out must be what an uninterrupted run would have had at that point
+                oxmpl::verif::clock_reset(tick_ns);
+                let _ = rig.drv.solve(iters(budget / 2 + 1));
+                first
             };
             let path: Option<Vec<Vec<u64>>> = res.as_ref().ok().map(|p| p.iter().map(|s| K::bits(s)).collect());
-            (sampler_trace::<K>(&rig), path)
+            // the states of the nodes / milestones in insertion order
+            let nodes: Vec<Vec<Vec<u64>>> = match rig.snapshot() {
+                crate::drv::Snap::Tree(t) => vec![t.iter().map(|(s, _, _)| K::bits(s)).collect()],
+                crate::drv::Snap::Two(a, b) => vec![a.iter().map(|(s, _, _)| K::bits(s)).collect(), b.iter().map(|(s, _, _)| K::bits(s)).collect()],
+                crate::drv::Snap::Roadmap(r) => vec![r.iter().map(|(s, _)| K::bits(s)).collect()],
+            };
+            (sampler_trace::<K>(&rig), path, nodes)
         })
     };
     rep.count("clock_perturbation_cases", 1);
@@ -287,8 +335,8 @@ fn clock_case<K: Kit>(sc: &Scenario, goal_rng: bool, budget: usize, rep: &mut Re
     };
     rep.count("traces_validated", 1);
     for (name, a, b) in [("2ms-vs-1ms", &mid, &fast), ("4ms-vs-2ms", &slow, &mid)] {
-        let (ta, pa) = a;
-        let (tb, pb) = b;
+        let (ta, pa, na) = a;
+        let (tb, pb, nb) = b;
         let prefix = ta.len() <= tb.len() && ta.iter().zip(tb.iter()).all(|(x, y)| x == y);
         let pk = sc.params.pk;
         if !prefix {
@@ -300,6 +348,21 @@ fn clock_case<K: Kit>(sc: &Scenario, goal_rng: bool, budget: usize, rep: &mut Re
         }
         if ta.len() < tb.len() {
             rep.count("clock_runs_with_fewer_iterations", 1);
+        }
+        // RRT / RRT* / PRM append nodes in iteration order (RRT-Connect's two trees interleave, and the
+        // goal-root re-sampling depends on the budget, so it is judged by its sampler trace only): the run
+        // that completed fewer iterations has a prefix of the other run's nodes
+        if pk != crate::drv::Pk::Connect {
+            for (x, y) in na.iter().zip(nb.iter()) {
+                let prefix = x.len() <= y.len() && x.iter().zip(y.iter()).all(|(p, q)| p == q);
+                if !prefix {
+                    let at = x.iter().zip(y.iter()).position(|(p, q)| p != q).unwrap_or(x.len().min(y.len()));
+                    rep.violate(format!("C07|{}|clock-dependent-tree|{name}", pk.name()), format!("with a slower logical clock ({name}) the nodes are not a prefix of the faster clock's nodes (first difference at node {at}; {} vs {} nodes): where the deadline fell changed what an iteration did", x.len(), y.len()), || {
+                        json!({"kind": "repro-clock", "prop": "C07", "scenario": sc.json(), "goal_sampler_uses_rng": goal_rng, "budget_iterations": budget, "first_difference_at_node": at})
+                    });
+                    return;
+                }
+            }
         }
         if let (Some(x), false) = (pa, pk == crate::drv::Pk::Prm) {
             if pb.as_ref() != Some(x) {
